@@ -2,7 +2,9 @@
 namespace CaddyModel.Gen
 
 /-- every sort call in caddyconfig/** and modules/**/caddyfile.go: (file:function, sort function, what is sorted,
-    the expressions a comparator literal returns, joined by ` | `; empty for the plain sorts) -/
+    `reads: v,w,…` = the variables the comparator reads that are neither its parameters nor its locals — captured
+    variables of a closure and package-level variables, collected through every function of the same package it
+    calls statically, sorted; empty for the plain sorts, which take no comparator) -/
 def adapterSortCalls : List (String × String × String × String) := [
   ("caddyconfig/httpcaddyfile/addresses.go:mapAddressToProtocolToServerBlocks", "sort.Strings", "addrs", ""),
   ("caddyconfig/httpcaddyfile/addresses.go:mapAddressToProtocolToServerBlocks", "sort.Strings", "prots", ""),
@@ -11,19 +13,19 @@ def adapterSortCalls : List (String × String × String × String) := [
   ("caddyconfig/httpcaddyfile/addresses.go:consolidateAddrMappings", "sort.Strings", "addresses", ""),
   ("caddyconfig/httpcaddyfile/addresses.go:consolidateAddrMappings", "sort.Strings", "prots", ""),
   ("caddyconfig/httpcaddyfile/directives.go:Caddyfiles", "sort.Strings", "filesSlice", ""),
-  ("caddyconfig/httpcaddyfile/directives.go:sortRoutes", "sort.SliceStable", "routes", "dirPositions[iDir]<dirPositions[jDir] | false | false | iPathLen<jPathLen | iPathLen>jPathLen | len(iRoute.MatcherSetsRaw)>0&&len(jRoute.MatcherSetsRaw)==0 | !sortByPath | sortByPath"),
+  ("caddyconfig/httpcaddyfile/directives.go:sortRoutes", "sort.SliceStable", "routes", "reads: dirPositions,routes"),
   ("caddyconfig/httpcaddyfile/httptype.go:Setup", "sort.Strings", "defaultLog.Exclude", ""),
-  ("caddyconfig/httpcaddyfile/httptype.go:evaluateGlobalOptionsBlock", "sort.Slice", "serverOpts", "len(serverOpts[i].ListenerAddress)>len(serverOpts[j].ListenerAddress)"),
-  ("caddyconfig/httpcaddyfile/httptype.go:serversFromPairings", "sort.SliceStable", "p.serverBlocks", "false | true | jWildcardHost&&!iWildcardHost | len(iLongestPath)>len(jLongestPath) | specificity(iLongestHost)>specificity(jLongestHost)"),
+  ("caddyconfig/httpcaddyfile/httptype.go:evaluateGlobalOptionsBlock", "sort.Slice", "serverOpts", "reads: serverOpts"),
+  ("caddyconfig/httpcaddyfile/httptype.go:serversFromPairings", "sort.SliceStable", "p.serverBlocks", "reads: p"),
   ("caddyconfig/httpcaddyfile/httptype.go:serversFromPairings", "slices.Sort", "hosts", ""),
-  ("caddyconfig/httpcaddyfile/httptype.go:serversFromPairings", "sort.SliceStable", "errorSubrouteVals", "false | false | true"),
+  ("caddyconfig/httpcaddyfile/httptype.go:serversFromPairings", "sort.SliceStable", "errorSubrouteVals", "reads: errorSubrouteVals"),
   ("caddyconfig/httpcaddyfile/httptype.go:serversFromPairings", "slices.Sort", "srv.Logs.SkipHosts", ""),
-  ("caddyconfig/httpcaddyfile/httptype.go:consolidateConnPolicies", "sort.SliceStable", "cps", "cps[j].MatchersRaw==nil&&cps[i].MatchersRaw!=nil"),
+  ("caddyconfig/httpcaddyfile/httptype.go:consolidateConnPolicies", "sort.SliceStable", "cps", "reads: cps"),
   ("caddyconfig/httpcaddyfile/httptype.go:buildSubroute", "sort.Strings", "keys", ""),
   ("caddyconfig/httpcaddyfile/tlsapp.go:buildTLSApp", "sort.Strings", "hostsNotHTTP", ""),
   ("caddyconfig/httpcaddyfile/tlsapp.go:buildTLSApp", "slices.Sort", "al", ""),
   ("caddyconfig/httpcaddyfile/tlsapp.go:buildTLSApp", "slices.Sort", "internalAP.SubjectsRaw", ""),
-  ("caddyconfig/httpcaddyfile/tlsapp.go:consolidateAutomationPolicies", "sort.SliceStable", "aps", "true | false | len(aps[i].SubjectsRaw)>len(aps[j].SubjectsRaw)"),
+  ("caddyconfig/httpcaddyfile/tlsapp.go:consolidateAutomationPolicies", "sort.SliceStable", "aps", "reads: aps"),
   ("modules/caddyhttp/reverseproxy/forwardauth/caddyfile.go:parseCaddyfile", "sort.Strings", "sortedHeadersToCopy", "")]
 
 /-- every read of the environment, the clock, randomness or a directory listing, every maps.Keys / maps.Values call and
